@@ -425,6 +425,27 @@ ELEMENT_CONTRACTS = {
                  'tick(200 + $, $))',
                  lambda L, o: {0: [0, 1, 2, 3, 4], 100: [0, 1, 2, 3],
                                200: [0, 1, 2, 3]}),
+    'generate-decycle': (
+        'generate(0, tick($, $ >= 0), tick(100 + $, ($ + 1) mod '
+        '($o.len() + 1)), tick(200 + $, $), decycle => true)',
+        lambda L, o: (lambda n: {0: list(range(n)) + [0],
+                                 100: list(range(n)),
+                                 200: list(range(n))})(len(o) + 1)),
+    'generate-decycle-noselector': (
+        'generate(0, tick($, $ >= 0), tick(100 + $, ($ + 1) mod '
+        '($o.len() + 1)), decycle => true)',
+        lambda L, o: (lambda n: {0: list(range(n)) + [0],
+                                 100: list(range(n))})(len(o) + 1)),
+    'generateMany-decycle': (
+        'generateMany(0, tick($, [($ + 1) mod ($o.len() + 1), 0]), '
+        'tick(100 + $, $), decycle => true)',
+        lambda L, o: (lambda n: {0: list(range(n)),
+                                 100: list(range(n))})(len(o) + 1)),
+    'generateMany-depthFirst': (
+        'generateMany(1, tick($, switch($ < ($o.len() + 1) => [$ * 2, '
+        '$ * 2 + 1], true => [])), tick(100 + $, $), depthFirst => true)'
+        '.take(4)',
+        lambda L, o: None),
     'mergeWith-item': ('{a => 1, b => 2}.mergeWith({b => 3, c => 4}, '
                        'itemMerger => tick($1, $1 + $2))',
                        lambda L, o: {0: [2]}),
@@ -520,8 +541,55 @@ def check_elements(run, case):
             text, log), input_class=name)
 
 
+# ---- method calls on yaqlized host objects ---------------------------------
+# (their arguments are evaluated by the '.' operator of the yaqlized library,
+# not by the runner: same rule - once each, in source order)
+
+class _Host:
+    def m(self, *a, **kw):
+        return [list(a), sorted(kw.items())]
+
+
+def check_yaqlized_call(run, case):
+    from yaql import yaqlization
+    ctx = common.child()
+    log = []
+    common.add_tick(ctx, log)
+    ctx['$y'] = yaqlization.yaqlize(_Host())
+    parts, order, boom_at = [], [], None
+    for i, a in enumerate(case['args'], 1):
+        kind, name = a
+        src = 'tick(%d, %d)' % (i, i * 10)
+        if kind == 'boom' and boom_at is None:
+            src = '[tick(%d, 1)][9]' % i
+            boom_at = i
+        parts.append(('%s => %s' % (name, src)) if name else src)
+        order.append(i)
+    text = '$y.m(%s)' % ', '.join(parts)
+    if boom_at is not None:
+        order = order[:boom_at]
+    try:
+        got = ('ok', _engine()(text).evaluate(context=ctx))
+    except Exception as e:   # noqa
+        got = ('exc', e)
+    run.case(case, len(case['args']) >= 2 and any(n for _, n in case['args']),
+             cls=['yaqlized-call'])
+    if log != order:
+        run.violate('eager-arguments-not-once-in-source-order', case,
+                    '%s: probes in source order %r, evaluation log %r' % (
+                        text, order, log), input_class='yaqlized-method')
+        return
+    if boom_at is None and got[0] != 'ok':
+        run.violate('contract-expression-raises', case, '%s raised %s: %s' % (
+            text, type(got[1]).__name__, got[1]), exc=got[1],
+            input_class='yaqlized-method')
+    elif boom_at is not None and got[0] == 'ok':
+        run.violate('operand-failure-swallowed', case, '%s -> %r' % (
+            text, got[1]), input_class='yaqlized-method')
+
+
 REPLAY = {'sweep': check_sweep, 'contract': check_contract,
-          'elements': check_elements}
+          'elements': check_elements, 'yaqlized-call': check_yaqlized_call}
 
 # --------------------------------------------------------------------------
 
@@ -614,6 +682,20 @@ def _hyp_shard(run, which, n, shard):
     else:
         run.hyp('elements', element_cases(),
                 lambda c: check_elements(run, c), n, shard=shard)
+
+        @st.composite
+        def ycalls(draw):
+            npos = draw(st.integers(0, 3))
+            names = draw(st.lists(st.sampled_from(['a', 'b', 'k', 'z']),
+                                  max_size=3, unique=True))
+            args = [[draw(st.sampled_from(['ok', 'ok', 'ok', 'boom'])), None]
+                    for _ in range(npos)]
+            args += [[draw(st.sampled_from(['ok', 'ok', 'ok', 'boom'])), n_]
+                     for n_ in names]
+            return {'kind': 'yaqlized-call', 'args': args}
+        run.hyp('yaqlized-calls', ycalls(),
+                lambda c: check_yaqlized_call(run, c), max(n // 8, 10),
+                shard=shard)
 
 
 def run(run):
